@@ -44,6 +44,9 @@ type Case struct {
 	FailGap  int    `json:"fail_gap"`            // >=0: the counting closure throws at source index D+window+FailGap
 	FailNear bool   `json:"fail_near,omitempty"` // the counting closure throws at source index D+FailGap: directly behind the decisive prefix, inside the read-ahead window
 	Unused   string `json:"unused,omitempty"`    // "let": pipeline bound but not consumed; "return": returned lazily
+	// CrossRows > 0: the counted list is the SECOND operand of a cross with CrossRows rows,
+	// numbers(R).cross(numbers(N).map(cnt), (a,b)->b): cross runs it once per row, lazily
+	CrossRows int `json:"cross_rows,omitempty"`
 }
 
 var e, a, b, l = Var("e"), Var("a"), Var("b"), Var("l")
@@ -324,6 +327,22 @@ func (c St) ideal(in iter, ahead bool) (ref.Value, bool) {
 	panic("consumer " + c.Name)
 }
 
+// total: the number of items the (possibly repeated) counted source delivers; value: the
+// i-th of them. Every pull costs one call of the counting closure.
+func (c Case) total() int {
+	if c.CrossRows > 0 {
+		return c.N * c.CrossRows
+	}
+	return c.N
+}
+
+func (c Case) value(i int) int {
+	if c.CrossRows > 0 {
+		return i % c.N
+	}
+	return i
+}
+
 func (c Case) list() *Expr {
 	body := SCall("cnt", e)
 	if c.Slow {
@@ -333,6 +352,9 @@ func (c Case) list() *Expr {
 		body = If(Bin("=", e, Var("failAt")), SCall("throw", Str("T#0#")), body)
 	}
 	cur := MCall(SCall("numbers", Int(c.N)), "map", lam("e", body))
+	if c.CrossRows > 0 {
+		cur = MCall(SCall("numbers", Int(c.CrossRows)), "cross", cur, lam("a,b", b))
+	}
 	for _, s := range c.Stages {
 		cur = s.apply(cur)
 	}
@@ -347,11 +369,11 @@ const demandCap = 200000
 func (c Case) demandHi(cons St, extra int) int {
 	d := 0
 	var src iter = func() (int, bool) {
-		if d >= c.N || d > demandCap+100 {
+		if d >= c.total() || d > demandCap+100 {
 			return 0, false
 		}
 		d++
-		return d - 1, true
+		return c.value(d - 1), true
 	}
 	cur := src
 	for _, s := range c.Stages {
@@ -367,11 +389,11 @@ func (c Case) demandHi(cons St, extra int) int {
 func (c Case) demand(cons St) (int, ref.Value, bool) {
 	d := 0
 	var src iter = func() (int, bool) {
-		if d >= c.N || d > demandCap {
+		if d >= c.total() || d > demandCap {
 			return 0, false
 		}
 		d++
-		return d - 1, true
+		return c.value(d - 1), true
 	}
 	cur := src
 	for _, s := range c.Stages {
@@ -559,7 +581,13 @@ func TestPropC08(t *testing.T) {
 		if c.Consumer.Name == "contains" || c.Consumer.Name == "containsAll" {
 			c.Consumer.A = 2 * (k / 2)
 		}
-		if rapid.IntRange(0, 2).Draw(t, "failing") == 0 {
+		if rapid.IntRange(0, 7).Draw(t, "crossRows") == 0 {
+			// the counted list as second operand of a cross: it is run once per row
+			c.CrossRows = rapid.IntRange(2, 5).Draw(t, "rows")
+			c.N = rapid.IntRange(2, 25).Draw(t, "innerN")
+			c.Slow = false
+		}
+		if c.CrossRows == 0 && rapid.IntRange(0, 2).Draw(t, "failing") == 0 {
 			c.FailGap = rapid.IntRange(0, 5).Draw(t, "failGap")
 			c.FailNear = rapid.Bool().Draw(t, "failNear")
 		}
@@ -596,7 +624,10 @@ func TestPropC08(t *testing.T) {
 		} else if c.Unused == "" {
 			cls = append(cls, "demand_with_read_ahead")
 		}
-		nt := (c.N >= 1000000000 || c.FailGap >= 0) && inf.d < c.N
+		if c.CrossRows > 0 {
+			cls = append(cls, "counted_list_is_second_operand_of_cross")
+		}
+		nt := (c.N >= 1000000000 || c.FailGap >= 0 || c.CrossRows > 0) && inf.d < c.total()
 		evid.R.Case(nt, fmt.Sprint(c), func() any {
 			return map[string]any{"program": Render(c.Consumer.consume(c.list())), "n": c.N, "demand": inf.d, "calls": inf.calls, "bound": inf.bound, "unused": c.Unused}
 		}, cls...)
